@@ -17,21 +17,25 @@ def gen_variant(rng, vid, uid, depth=1, vtype=None):
     if depth < 3:
         for cid in rng.sample(["optional", "HighAvailability", "ResilientStorage", "SAP"], rng.choice([0, 0, 1, 2])):
             children[cid] = gen_variant(rng, cid, "%s-%s" % (uid, cid), depth + 1, vtype=rng.choice(["addon", "optional", "variant"]))
-    return {"id": vid, "uid": uid, "name": rng.choice([vid, "The %s" % vid]), "type": vtype or "variant", "paths": paths, "children": children}
+    return {"id": vid, "uid": uid, "name": rng.choice([vid, "The %s" % vid, "%s ;extras # and more" % vid]), "type": vtype or "variant",
+            "paths": paths, "children": children}
 
 
 def gen_treeinfo(rng, R=None):
     arch = rng.choice(ARCHES)
     layered = rng.random() < 0.25
     d = {
-        "release": {"name": rng.choice(["Fedora", "Red Hat Enterprise Linux"]), "short": rng.choice(["Fedora", "RHEL"]),
-                    "version": rng.choice(["22", "7.9", "Rawhide"]), "is_layered": layered},
+        "release": {"name": rng.choice(["Fedora", "Red Hat Enterprise Linux", "Fedora ;Server Edition", "Spacewalk #1 = x: y"]),
+                    "short": rng.choice(["Fedora", "RHEL"]),
+                    "version": rng.choice(["22", "7.9", "Rawhide", "6.5"]), "is_layered": layered},
         "base_product": {"name": "Base", "short": "B", "version": rng.choice(["7", "Rawhide"])} if layered else None,
         "tree": {"arch": arch, "build_timestamp": rng.choice([1440000000, 1, rng.randint(10 ** 8, 2 * 10 ** 9)]),
                  "platforms": sorted(set(rng.sample([arch, "xen", "ppc64"], rng.randint(0, 3))))},
         "variants": {}, "images": {}, "stage2": {"mainimage": None, "instimage": None},
         "media": {"discnum": None, "totaldiscs": None}, "checksums": {},
     }
+    if rng.random() < 0.15:
+        d["release"]["name"] = "Scientific Linux %s" % d["release"]["version"]        # a name that already ends in the version
     for t in rng.sample(["Server", "Client", "Workstation", "AppStream"], rng.randint(1, 3)):
         d["variants"][t] = gen_variant(rng, t, t)
     if rng.random() < 0.3:                      # dashed top-level UID (the 'Server-optional' case), childless
